@@ -293,6 +293,20 @@ def setm_rule(ctx, C, rep):
                 memv = s_.store.get(('ctx', C.off['mem_']))
                 if memv is None:
                     probs.append('success path does not commit the capacity')
+                else:
+                    # the committed capacity covers the request: entailed (Fourier-Motzkin, per wrap assignment) by the loop exit
+                    # test and the rounding facts - this is what the callers' summary M >= requested stands on
+                    import types
+                    leaf = types.SimpleNamespace(pc=list(s_.pc), calls=[], store={('ctx', C.off['mem_']): memv}, ret=None, reads=[])
+                    # requests beyond PTRDIFF_MAX elements are outside the contract (no object can hold them); with that the loop
+                    # variable stays <= PTRDIFF_MAX: initially mem_, afterwards below the request (checked on the back edge below)
+                    base = [fm.le(1, C.S('siz_')), fm.le(C.S('mem_'), MAXP), fm.le(C.S('mem_') + 1, req), fm.le(req, MAXP), fm.le(m, MAXP)]
+                    for case in lin.cases_of(dom, leaf, base, extra_terms=[req]):
+                        okc, g = lin.prove(case, [fm.le(req, memv[0])])
+                        if not okc:
+                            probs.append('success is reported with a committed capacity (%s = the grown value rounded up) that the loop exit test %s does not force '
+                                         'to reach the requested %s' % (memv[0], [c for c in s_.pc if isinstance(c, alg.Cond)][:1], req))
+                            break
             elif rv == 0:
                 pass
             else:
@@ -301,6 +315,17 @@ def setm_rule(ctx, C, rep):
                     probs.append('failure path stores to the container')
         if nsucc == 0 or nfail == 0:
             probs.append('success/failure paths: %d/%d' % (nsucc, nfail))
+        # the invariant m <= PTRDIFF_MAX used above is inductive: the value carried around the back edge is below the request
+        import types
+        for s_, nv in tx.backs:
+            nxt = list(nv.values())[0]
+            leaf = types.SimpleNamespace(pc=list(s_.pc), calls=[], store={}, ret=nxt, reads=[])
+            base = [fm.le(C.S('mem_'), MAXP), fm.le(req, MAXP), fm.le(m, MAXP)]
+            for case in lin.cases_of(dom, leaf, base, extra_terms=[req]):
+                okc, g = lin.prove(case, [fm.le(nxt, MAXP)])
+                if not okc:
+                    probs.append('the grown capacity %s carried into the next iteration is not bounded by the request' % nxt)
+                    break
         if probs:
             rep.bad('B1s', 'a_vec_setm', '; '.join(probs), loc=loc, key='a_vec_setm: summary')
         else:
